@@ -249,6 +249,8 @@ type ArtelaOpts struct {
 	// InnerFor, if set, supplies a fresh real tracer per invocation (Debug must be on).
 	InnerFor func(i int, evm *avm.EVM, inv *Invocation) avm.EVMLogger
 	Ctx      context.Context
+	// OnGetHash observes every block-hash lookup the VM makes at the host
+	OnGetHash func(n uint64)
 }
 
 type ArtelaRun struct {
@@ -295,7 +297,12 @@ func RunArtela(sc *Scenario, opt ArtelaOpts) *ArtelaRun {
 				opt.OnTransfer(st, evm, from, to, amt, false)
 			}
 		},
-		GetHash:     blockHashFn,
+		GetHash: func(n uint64) common.Hash {
+			if opt.OnGetHash != nil {
+				opt.OnGetHash(n)
+			}
+			return blockHashFn(n)
+		},
 		Coinbase:    scenCoinbase,
 		GasLimit:    30_000_000,
 		BlockNumber: big.NewInt(scenBlockNumber),
